@@ -1,5 +1,6 @@
 From Coq Require Import Extraction ExtrOcamlBasic.
-From SV Require Import Base.Bytes Model.Headers Model.RustStr Model.Request Spec.Framing.
+From SV Require Import Base.Bytes Model.Headers Model.RustStr Model.Head Model.Request Spec.Framing.
 Extraction Language OCaml.
 Extraction "c03_model.ml" run_given oracle_c03_msg obs_continues after_head framing_spec spec_cookies
-  classify_cl classify_te field_values n_content_length n_transfer_encoding oracle_pure values_fv handler_log body_to_file_known.
+  classify_cl classify_te field_values n_content_length n_transfer_encoding oracle_pure values_fv handler_log body_to_file_known
+  parse_header_lines split_on trim_trailing_cr.
